@@ -11,7 +11,6 @@ mod gen;
 mod interp;
 mod model;
 mod scenario;
-mod sched;
 mod trace;
 
 use std::collections::BTreeMap;
